@@ -11,6 +11,7 @@ import (
 	"github.com/ajitpratap0/GoSQLX/pkg/gosqlx"
 	"github.com/ajitpratap0/GoSQLX/pkg/sql/keywords"
 	"github.com/ajitpratap0/GoSQLX/pkg/sql/parser"
+	"github.com/ajitpratap0/GoSQLX/pkg/sql/tokenizer"
 )
 
 // Handler processes LSP requests and notifications.
@@ -712,10 +713,41 @@ func formatSQL(sql string, opts FormattingOptions) string {
 		indent = "\t"
 	}
 
+	// Lines are only reshaped where they are plain code: a line that begins
+	// inside a multi-line literal or comment keeps its leading blanks, one that
+	// ends inside a multi-line string keeps its trailing blanks, and blank lines
+	// inside such a region are kept.
+	classes := tokenizer.ClassifyBytes(sql)
+	classAt := func(i int) tokenizer.ByteClass {
+		if i < 0 || i >= len(classes) {
+			return tokenizer.ByteCode
+		}
+		return classes[i]
+	}
+	offset := 0
+
 	currentIndent := ""
 	for _, line := range lines {
-		trimmed := strings.TrimSpace(line)
+		startsInside := offset > 0 && classAt(offset-1) != tokenizer.ByteCode
+		endsInside := offset+len(line) < len(classes) && classAt(offset+len(line)) == tokenizer.ByteLiteral
+		offset += len(line) + 1
+
+		trimmed := line
+		if !startsInside {
+			trimmed = strings.TrimLeft(trimmed, " \t\r")
+		}
+		if !endsInside {
+			trimmed = strings.TrimRight(trimmed, " \t\r")
+		}
+		if startsInside {
+			// continuation of a literal or comment: copy, never indent or drop
+			result = append(result, trimmed)
+			continue
+		}
 		if trimmed == "" {
+			if endsInside {
+				result = append(result, line)
+			}
 			continue
 		}
 
